@@ -74,7 +74,7 @@ Qed.
    decode as a 16.16 fixed, not as the integer. *)
 Lemma t2_int_outside_int16_decodes_as_fixed :
   exists v bs, encodeInt FmtT2 v = Ok bs /\ readNumber FmtT2 bs = Ok (NFixed v, []).
-Proof. exists 40000. eexists. split; vm_compute; reflexivity. Qed.
+Proof. exists 40000, [255; 0; 0; 156; 64]. split; vm_compute; reflexivity. Qed.
 
 Definition num_value16 (n : num) : Z := match n with NInt v => v * 65536 | NFixed f => f end.
 
@@ -108,10 +108,8 @@ Proof.
   { inversion H; subst; clear H. cbn. do 3 f_equal. lia. }
   destruct (v <? 762) eqn:E3.
   { inversion H; subst; clear H. cbn. do 3 f_equal. lia. }
-  inversion H; subst; clear H. cbn [app unpack255UShort pack_be].
-  cbn [Z.eqb Pos.eqb]. cbn [Z.of_nat Z.mul Pos.mul Pos.of_succ_nat Pos.succ].
-  rewrite Z.shiftr_div_pow2 by lia. rewrite Z.shiftr_0_r. rewrite !land_255. change (2^8) with 256.
-  do 3 f_equal. lia.
+  inversion H; subst; clear H. rewrite pack_be_2. cbn [app unpack255UShort].
+  cbn [Z.eqb Pos.eqb]. do 3 f_equal. lia.
 Qed.
 
 (* ---------- UIntBase128 ---------- *)
@@ -169,10 +167,10 @@ Proof.
     change (7 * Z.of_nat 1) with 7. lia.
   - rewrite land_128_or by exact Hg. rewrite land_127_or by exact Hg.
     rewrite lor_shiftl_add by (change (2^7) with 128; lia). change (2^7) with 128.
-    rewrite IH; try lia.
-    + do 2 f_equal. rewrite Emod, Epow. ring.
-    + rewrite Emod, Epow in Hlt.
-      assert (0 <= n mod 2 ^ (7 * Z.of_nat (S j'))) by (apply Z.mod_pos_bound; lia). nia.
+    assert (Hlt': (acc * 128 + g) * 2 ^ (7 * Z.of_nat (S j')) + n mod 2 ^ (7 * Z.of_nat (S j')) < 2 ^ 32).
+    { rewrite Emod, Epow in Hlt. nia. }
+    rewrite IH by lia.
+    do 2 f_equal. rewrite Emod, Epow. ring.
 Qed.
 
 Lemma base128Size_spec n : 0 <= n < 2 ^ 32 ->
@@ -256,23 +254,6 @@ Qed.
 (* ---------- uint32var ---------- *)
 Lemma lor_const v c k : 0 <= k -> 0 <= v < 2 ^ k -> Z.lor v (Z.shiftl c k) = c * 2 ^ k + v.
 Proof. intros. rewrite Z.lor_comm. apply lor_shiftl_add; assumption. Qed.
-
-Lemma pack_be_2 x : pack_be 2 x = [(x / 256) mod 256; x mod 256].
-Proof.
-  unfold pack_be. cbn [Z.of_nat Z.mul Pos.mul Pos.of_succ_nat Pos.succ].
-  rewrite !land_255, Z.shiftr_0_r, Z.shiftr_div_pow2 by lia. reflexivity.
-Qed.
-Lemma pack_be_3 x : pack_be 3 x = [(x / 65536) mod 256; (x / 256) mod 256; x mod 256].
-Proof.
-  unfold pack_be. cbn [Z.of_nat Z.mul Pos.mul Pos.of_succ_nat Pos.succ].
-  rewrite !land_255, Z.shiftr_0_r, !Z.shiftr_div_pow2 by lia. reflexivity.
-Qed.
-Lemma pack_be_4 x :
-  pack_be 4 x = [(x / 16777216) mod 256; (x / 65536) mod 256; (x / 256) mod 256; x mod 256].
-Proof.
-  unfold pack_be. cbn [Z.of_nat Z.mul Pos.mul Pos.of_succ_nat Pos.succ].
-  rewrite !land_255, Z.shiftr_0_r, !Z.shiftr_div_pow2 by lia. reflexivity.
-Qed.
 
 Lemma lor_shl8 a b : 0 <= b < 256 -> Z.lor (Z.shiftl a 8) b = a * 256 + b.
 Proof. intros. apply (lor_shiftl_add a b 8); [lia|exact H]. Qed.
@@ -360,10 +341,16 @@ Qed.
 Lemma lxor_mask_involutive p k : 0 <= p < 256 ->
   Z.land (Z.lxor (Z.land (Z.lxor p k) 255) k) 255 = p.
 Proof.
-  intros Hp. change 255 with (Z.ones 8).
-  rewrite !Z.land_lxor_distr_l. rewrite <- Z.land_assoc, Z.land_diag.
-  rewrite Z.lxor_assoc, Z.lxor_nilpotent, Z.lxor_0_r.
-  rewrite Z.land_ones by lia. apply Z.mod_small. change (2^8) with 256. lia.
+  intros Hp. change 255 with (Z.ones 8). apply Z.bits_inj'. intros n Hn.
+  rewrite !Z.land_spec, !Z.lxor_spec, Z.land_spec, Z.lxor_spec.
+  destruct (Z.lt_ge_cases n 8) as [L|G].
+  - rewrite Z.ones_spec_low by lia. rewrite !andb_true_r.
+    destruct (Z.testbit p n), (Z.testbit k n); reflexivity.
+  - rewrite Z.ones_spec_high by lia. rewrite !andb_false_r.
+    destruct (Z.eq_dec p 0) as [->|NZ]; [rewrite Z.bits_0; reflexivity|].
+    symmetry. apply Z.bits_above_log2; [lia|].
+    apply Z.log2_lt_pow2; [lia|]. apply Z.lt_le_trans with (2^8); [change (2^8) with 256; lia|].
+    apply Z.pow_le_mono_r; lia.
 Qed.
 
 Theorem eexec_decrypt_encrypt ps : forall R, Forall is_byte ps ->
